@@ -2,6 +2,7 @@
    dwarf.rs eval_cfa_rule / eval_register_rule / eval_expr (gimli's evaluator by contract, for a
    small expression language), and the architecture-independent row type. *)
 From FH Require Export Word.
+From FH Require Import Consts.
 Open Scope N_scope.
 
 (* a small DWARF expression language; gimli's semantics for 8-byte generic values *)
@@ -19,6 +20,9 @@ Inductive eop :=
 Definition expr := list eop.
 
 Definition sx64 (v : N) : Z := if v <? 9223372036854775808 then Z.of_N v else (Z.of_N v - Z.of_N W64)%Z.
+
+Definition expr_too_long (e : expr) : bool :=
+  match EXPR_MAX_ITERATIONS with Some k => k <? N.of_nat (length e) | None => false end.
 
 Section Eval.
 Variable getreg : N -> option N.       (* DwarfUnwindRegs::get *)
@@ -42,8 +46,13 @@ Fixpoint eval_ops (e : expr) (st : list N) : option (list N) :=
     end
   end.
 
-(* eval_expr: the address of the last piece; an empty stack gives Location::Empty -> None *)
+(* eval_expr: the address of the last piece; an empty stack gives Location::Empty -> None.
+   The evaluator is given a bound on the number of operations it executes (fix for S22: without it a
+   backward DW_OP_skip / DW_OP_bra was evaluated forever); the model's operations are straight-line,
+   one iteration each, so an expression fails exactly when it is longer than the bound.
+   [EXPR_MAX_ITERATIONS] is regenerated from eval_expr's body (Generated/Consts.v). *)
 Definition eval_expr (e : expr) : option N :=
+  if expr_too_long e then None else
   match eval_ops e [] with
   | Some (top :: _) => Some top
   | _ => None
